@@ -130,17 +130,26 @@ theorem kepler_follows_modify :
     (exec w (fun v _ => v) (fun _ _ _ => false) 10 s (.propagate 0 7)).2.states = [(0, 1, 1)] := by
   decide
 
-/-- NOT safe in the current code (NOT_COVERED of C08; for the points of the Clohessy–Wiltshire propagator: OPEN finding
-C08-cw-points-share-propagator): generators of two DIFFERENT orbit objects (epochs 60 and 180) holding the SAME propagator
-object, walked side by side — the first one is re-targeted by the creation of the second: it starts at the other's epoch with the
-other's states. With propagators of their own (`propOf := id`) each follows its receiver (`interleave_pure`). -/
+/-- NOT safe in the current code (NOT_COVERED of C08): generators of two DIFFERENT orbit objects (epochs 60 and 180) that the user
+made hold the SAME propagator object, walked side by side — the first one is re-targeted by the creation of the second: it starts
+at the other's epoch with the other's states. With propagators of their own each follows its receiver (`interleave_pure`). -/
 theorem interleaved_shared_propagator_retargeted :
     let a : Args := { stop := some (.delta 120), step := some (some 60) }
     let ops := [IOp.create 0 a, IOp.create 1 a]
-    let shared : IWorld := { kind := .cw, propOf := fun _ => 0, epoch := fun o => if o = 0 then 60 else 180 }
-    let own : IWorld := { kind := .cw, propOf := id, epoch := fun o => if o = 0 then 60 else 180 }
+    let shared : IWorld := { kind := .kepler, propOf := fun _ => 0, epoch := fun o => if o = 0 then 60 else 180 }
+    let own : IWorld := { kind := .kepler, propOf := id, epoch := fun o => if o = 0 then 60 else 180 }
     (istep shared 10 (irun shared 10 {} ops) (.advance 0 5)).2.1 = [(180, 1), (240, 1), (300, 1)] ∧
     (istep own 10 (irun own 10 {} ops) (.advance 0 5)).2.1 = [(60, 0), (120, 0), (180, 0)] := by
+  decide
+
+/-- [cw-interleave-zip-sibling-points-dates, 31423a7] two points of one Clohessy–Wiltshire iteration (epochs 60 and 240) own their
+propagators: iterators created from them and advanced alternately (`zip`) each start at their own epoch (the first was
+re-targeted to 240, 300, … before the fix) -/
+theorem cw_sibling_points_interleaved :
+    let a : Args := { stop := some (.delta 180), step := some (some 60) }
+    let w : IWorld := { kind := .cw, propOf := id, epoch := fun o => if o = 0 then 60 else 240 }
+    let s := irun w 10 {} [.create 0 a, .create 1 a, .advance 0 1, .advance 1 1, .advance 0 1, .advance 1 1]
+    (istep w 10 s (.advance 0 5)).2.1 = [(180, 0), (240, 0)] ∧ (istep w 10 s (.advance 1 5)).2.1 = [(360, 1), (420, 1)] := by
   decide
 
 end BeyondVerif.C08W
